@@ -12,8 +12,19 @@ VCLAUSE(dawson_erfi, 10, 60000, 1500000, "|x| within 0.05 of the series/sum swit
 {
 	Src& s = c.s;
 	double x;
-	switch(s.pick({3, 3, 3, 1}))
+	switch(s.pick({30, 30, 30, 10, 2}))
 	{
+		case 4:
+		{	// exact special arguments: zero, the switch itself and its floating-point neighbours, the end of the stated range
+			static const double sp[] = {0.0, 0.2, 30.0, 1e-300, 5e-324, 0.4, 0.6};
+			x = sp[s.range(0, 6)];
+			int steps = (int) s.range(-2, 2);
+			for(int i = 0; i < std::abs(steps) && x != 0; i++)
+				x = std::nextafter(x, steps > 0 ? 1e9 : 0.0);
+			x *= s.sign();
+			c.cls("special_argument");
+			break;
+		}
 		case 0: x = s.sign() * (0.2 + s.sign() * std::pow(10.0, s.uniform(-12, -0.7))); break;	 // dense around +-0.2
 		case 1: x = s.uniform(-0.6, 0.6); break;
 		case 2: x = s.uniform(-30, 30); break;
@@ -48,8 +59,9 @@ VCLAUSE(inv_erf, 10, 8000, 200000, "|p| > 0.99 (tails) or |p| < 1e-3")
 {
 	Src& s = c.s;
 	double p;
-	switch(s.pick({2, 2, 1}))
+	switch(s.pick({20, 20, 10, 1}))
 	{
+		case 3: p = s.coin() ? 0.0 : s.sign() * (s.coin() ? 0.5 : 5e-324); break;
 		case 0: p = s.uniform(-1, 1); break;
 		case 1: p = s.sign() * (1.0 - std::pow(10.0, s.uniform(-12, -1))); break;
 		default: p = s.sign() * std::pow(10.0, s.uniform(-12, -1)); break;
@@ -121,7 +133,10 @@ VCLAUSE(round, 12, 40000, 1000000, "the value lies within 1e-9 relative of a pow
 		Vector rv;
 		Matrix rM;
 		VMUST_RETURN("Round(Vector/Matrix)", rv = Round(v, d); rM = Round(M, d));
-		VCHECK(same_bits(rv[0], r) && rv[2] == 0 && same_bits(rM[0][0], r) && same_bits(rM[1][1], rm), "Round overloads for Vector/Matrix differ from the scalar Round");
+		double ry2 = 0;
+		VMUST_RETURN("Round", ry2 = Round(y, d));
+		VCHECK(same_bits(rv[0], r) && same_bits(rv[1], ry2) && rv[2] == 0 && same_bits(rM[0][0], r) && same_bits(rM[0][1], ry2) && rM[1][0] == 0 && same_bits(rM[1][1], rm),
+			   "Round overloads for Vector/Matrix differ from the scalar Round");
 	}
 }
 
@@ -137,7 +152,14 @@ VCLAUSE(sign_step_equal, 10, 20000, 400000, "an argument is zero, or the two arg
 			default: return s.mixed(-8, 8);
 		}
 	};
-	double a = gen(), b = s.chance(0.3) ? a : gen();
+	double a = gen(), b;
+	switch(s.pick({3, 4, 2, 1}))
+	{
+		case 0: b = a; break;
+		case 1: b = gen(); break;
+		case 2: b = a * (1 + s.sign() * std::pow(10.0, s.uniform(-16, -7))); c.cls("nearly_equal"); break;	 // both sides of the 1e-10 tolerance
+		default: b = std::nextafter(a, s.coin() ? 1e308 : -1e308); c.cls("neighbours"); break;
+	}
 	if(a == 0 || b == 0 || a == b)
 		c.nt();
 	VLOG(c, "a=" << a << " b=" << b);
@@ -164,6 +186,15 @@ VCLAUSE(sign_step_equal, 10, 20000, 400000, "an argument is zero, or the two arg
 			VCHECK(e1, "Floats_Equal false at relative difference " << (double) rdr);
 		if(rdr > 2e-10L)
 			VCHECK(!e1, "Floats_Equal true at relative difference " << (double) rdr);
+		// explicit tolerance: consistent with Relative_Difference on both sides of it
+		double tol = std::pow(10.0, s.uniform(-15, 0));
+		bool e3 = false, e3r = false;
+		VMUST_RETURN("Floats_Equal(a,b,tol)", e3 = Floats_Equal(a, b, tol); e3r = Floats_Equal(b, a, tol));
+		VCHECK(e3 == e3r, "Floats_Equal(a,b,tol) is not symmetric for " << a << "," << b << " tol=" << tol);
+		if(rdr < 0.5L * tol)
+			VCHECK(e3, "Floats_Equal(" << a << "," << b << "," << tol << ") false at relative difference " << (double) rdr);
+		if(rdr > 2.0L * tol)
+			VCHECK(!e3, "Floats_Equal(" << a << "," << b << "," << tol << ") true at relative difference " << (double) rdr);
 	}
 }
 
